@@ -150,6 +150,7 @@ def run(lines, out, args):
             first = int(f[10])                # id of the first default value
             vals = f[11].split(",") if len(f) > 11 and f[11] != "-" else []    # value kinds of the defaults ('D': opaque)
             with_self = kind in ("M", "A")
+            body_override_wrong = None
             # the instance parameter of a method is whatever comes first, whatever it is called (`this`, `me`, `_`, `cls`)
             selfname = "self" if kind != "A" else ["self", "this", "me", "_", "cls"][first % 5]
             code = build(posonly, pos, va, kwonly, kw, nlocals, with_self, selfname)
@@ -200,6 +201,14 @@ def run(lines, out, args):
                 m = I["f"]
                 target = Abc().f
                 imlevel = 1
+                # ... and an interface body that RE-SPECIFIES the name with a plain function (written, like every interface
+                # method, without self): it is described as it stands
+                ns2 = {}
+                exec("def f(zx, yy=2, *rest): pass", ns2)
+                I2 = ABCInterfaceClass("IAbc", (ABCInterface,), {"abc": Abc, "f": ns2["f"], "__module__": "zi.gen.two"})      # (the name is I + the ABC's)
+                i2 = I2["f"].getSignatureInfo()
+                if (tuple(i2["positional"]), tuple(i2["required"]), dict(i2["optional"]), i2["varargs"]) != (("zx", "yy"), ("zx",), {"yy": 2}, "rest"):
+                    body_override_wrong = "%r" % (i2,)
             elif kind == "I":
                 # ... and the interface also holds another function made from the SAME code object with other defaults
                 # and attributes (functions produced by one `def` in a factory or loop)
@@ -214,6 +223,8 @@ def run(lines, out, args):
                 m = fromFunction(fn)
                 imlevel = 0
             info = m.getSignatureInfo()
+            if kind == "A" and body_override_wrong:
+                raise AssertionError("a body function re-specifying an ABC's method is described as " + body_override_wrong[:120])
             try:
                 sigstr = m.getSignatureString()
             except Exception as e:  # noqa  -- rendering a description must not fail, whatever the defaults are
